@@ -395,7 +395,8 @@ def _attr_key(d: dict[str, Any]) -> tuple[Any, ...]:
 
 
 def snap_tree(u: Universe, root: Any) -> tuple[Any, ...]:
-    """Identity-level snapshot of one tree (no use lists, no name hints)."""
+    """Identity-level snapshot of one tree (no use lists; name hints included: they are
+    not part of *equivalence* (CANON) but "modifies neither the source nor the destination" covers them)."""
     out: list[Any] = []
     stack = [root]
     n = 0
@@ -411,7 +412,7 @@ def snap_tree(u: Universe, root: Any) -> tuple[Any, ...]:
                     u.nm(x),
                     x.name,
                     tuple(u.nm(v) for v in x._operands),
-                    tuple((u.nm(r), r.type) for r in x.results),
+                    tuple((u.nm(r), r.type, getattr(r, "_name", None)) for r in x.results),
                     _attr_key(x.attributes),
                     _attr_key(x.properties),
                     getattr(x, "location", None),
@@ -426,7 +427,8 @@ def snap_tree(u: Universe, root: Any) -> tuple[Any, ...]:
                 (
                     "block",
                     u.nm(x),
-                    tuple((u.nm(a), a.type, getattr(a, "location", None)) for a in x._args),
+                    tuple((u.nm(a), a.type, getattr(a, "location", None), getattr(a, "_name", None)) for a in x._args),
+                    getattr(x, "_name", None),
                     tuple(u.nm(o) for o in ops),
                 )
             )
